@@ -151,7 +151,9 @@ int main(int argc, char** argv) {
         JsonDocument fd; fd.set(true); DeserializationOption::Filter fopt(fd.as<JsonVariantConst>());
         string f = unhex(fhex); deserializeJson(fd, f, DeserializationOption::NestingLimit(20));
         SPY0.markPeak(); size_t base = SPY0.cur;
-        e = deser('j', d, rk, in, consumed, fopt, DeserializationOption::NestingLimit((uint8_t)lim));
+        // both orders of the two options are legal: odd limits pass (NestingLimit, Filter), even ones (Filter, NestingLimit)
+        if (lim % 2) e = deser('j', d, rk, in, consumed, DeserializationOption::NestingLimit((uint8_t)lim), fopt);
+        else e = deser('j', d, rk, in, consumed, fopt, DeserializationOption::NestingLimit((uint8_t)lim));
         size_t req = SPY0.requested; long pk = (long)SPY0.peak - (long)base, fin = (long)SPY0.cur - (long)base;
         JsonDocument u(&SPY0); SPY0.requested = 0; long c2;
         SPY0.markPeak(); base = SPY0.cur;
@@ -180,7 +182,8 @@ int main(int argc, char** argv) {
         JsonDocument fd; fd.set(true); DeserializationOption::Filter fopt(fd.as<JsonVariantConst>());
         string f = unhex(fhex); deserializeJson(fd, f, DeserializationOption::NestingLimit(20));
         SPY0.markPeak(); base = SPY0.cur;
-        e = deser('m', d, rk, in, consumed, fopt, DeserializationOption::NestingLimit((uint8_t)lim));
+        if (lim % 2) e = deser('m', d, rk, in, consumed, DeserializationOption::NestingLimit((uint8_t)lim), fopt);
+        else e = deser('m', d, rk, in, consumed, fopt, DeserializationOption::NestingLimit((uint8_t)lim));
       }
       size_t req = SPY0.requested; long pk = (long)SPY0.peak - (long)base, fin = (long)SPY0.cur - (long)base;
       string mp; serializeMsgPack(d, mp);
@@ -323,6 +326,33 @@ int main(int argc, char** argv) {
         }
         if (!L.live.empty()) out += " LEAK";
       }
+    } else if (op == "pairkey") {
+      // C14: members copied by hand through the iteration API - for (JsonPair kv : src) dst[kv.key()] = kv.value(); - then the source goes away.
+      // pairkey <key kind> <hexkey> <hexvalue>: prints the source before, the destination after the copy, and the destination after the source was destroyed
+      string kk, hk, hv; is >> kk >> hk >> hv; string key = unhex(hk), sval = unhex(hv);
+      JsonDocument dst(&SPY0); JsonObject dobj = dst.to<JsonObject>();
+      string before, mid;
+      {
+        JsonDocument* src = new JsonDocument(&SPY0); JsonObject so = src->to<JsonObject>();
+        so["first"] = 1;
+#define KEY_SV(ks, body) else if (kk == "sv") { std::string kc_ = ks; std::string_view KEY(kc_); body; }
+#define WITHKEY2(kk, ks, body) do { \
+        if (kk == "sp") { std::vector<char> kb_(ks.begin(), ks.end()); kb_.push_back(0); char* KEY = kb_.data(); body; memset(kb_.data(), 'Z', kb_.size()); } \
+        else if (kk == "sj") { string kl_ = ks + "97"; JsonString KEY(kl_.data(), ks.size(), JsonString::Copied); body; } \
+        else if (kk == "sjl") { JsonString KEY(keep(ks), JsonString::Linked); body; } \
+        KEY_SV(ks, body) \
+        else { const string& KEY = ks; body; } } while (0)
+        WITHKEY2(kk, key, so[KEY] = sval);
+#undef WITHKEY2
+#undef KEY_SV
+        so["last"] = sval;
+        before = showS(src->as<JsonVariantConst>());
+        for (JsonPair kv : so) dobj[kv.key()] = kv.value();
+        mid = showS(dst.as<JsonVariantConst>());
+        delete src;
+      }
+      { JsonDocument scratch(&SPY0); for (int i = 0; i < 8; i++) scratch.add(string(40 + i, 'Q')); }      // recycle the released blocks
+      out = before + " " + mid + " " + showS(dst.as<JsonVariantConst>());
     } else if (op == "mpdocf") {
       // slot-level tie of the FILTERED deserializeMsgPack: mpdocf <limit> <pre 0|1> <fail> <filter-json-hex> <hex> [geometry]
       int lim, pre; string fail, fhex, hex; is >> lim >> pre >> fail >> fhex >> hex;
@@ -339,7 +369,8 @@ int main(int argc, char** argv) {
           GLOG.clear();
           if (fail[0] == 'a') L.failAt.insert(L.calls + atol(fail.c_str() + 1));
           if (fail[0] == 'f') L.failFrom = L.calls + atol(fail.c_str() + 1);
-          DeserializationError e = deserializeMsgPack(d, r, fopt, DeserializationOption::NestingLimit((uint8_t)lim));
+          DeserializationError e = (lim % 2) ? deserializeMsgPack(d, r, DeserializationOption::NestingLimit((uint8_t)lim), fopt)
+                                             : deserializeMsgPack(d, r, fopt, DeserializationOption::NestingLimit((uint8_t)lim));
           out = string(e.c_str()) + " " + showS(d.as<JsonVariantConst>()) + " " + std::to_string(r.pos) + " o=" + (d.overflowed() ? "1" : "0") + "|" + HLOG();
           L.failAt.clear(); L.failFrom = -1; L.logging = false;
         }
@@ -363,7 +394,8 @@ int main(int argc, char** argv) {
           GLOG.clear();
           if (fail[0] == 'a') L.failAt.insert(L.calls + atol(fail.c_str() + 1));
           if (fail[0] == 'f') L.failFrom = L.calls + atol(fail.c_str() + 1);
-          DeserializationError e = deserializeJson(d, r, fopt, DeserializationOption::NestingLimit((uint8_t)lim));
+          DeserializationError e = (lim % 2) ? deserializeJson(d, r, DeserializationOption::NestingLimit((uint8_t)lim), fopt)
+                                             : deserializeJson(d, r, fopt, DeserializationOption::NestingLimit((uint8_t)lim));
           out = string(e.c_str()) + " " + showS(d.as<JsonVariantConst>()) + " " + std::to_string(r.pos) + " o=" + (d.overflowed() ? "1" : "0") + "|" + HLOG();
           L.failAt.clear(); L.failFrom = -1; L.logging = false;
         }
@@ -657,8 +689,13 @@ int main(int argc, char** argv) {
       if (fhex == "-") e = fmt == 'j' ? deserializeJson(d, r, DeserializationOption::NestingLimit((uint8_t)lim)) : deserializeMsgPack(d, r, DeserializationOption::NestingLimit((uint8_t)lim));
       else {
         JsonDocument fd; string f = unhex(fhex); deserializeJson(fd, f, DeserializationOption::NestingLimit(20));
-        e = fmt == 'j' ? deserializeJson(d, r, DeserializationOption::Filter(fd.as<JsonVariantConst>()), DeserializationOption::NestingLimit((uint8_t)lim))
-                       : deserializeMsgPack(d, r, DeserializationOption::Filter(fd.as<JsonVariantConst>()), DeserializationOption::NestingLimit((uint8_t)lim));
+        // both orders of the two options are legal: odd limits pass (NestingLimit, Filter), even ones (Filter, NestingLimit)
+        if (lim % 2)
+          e = fmt == 'j' ? deserializeJson(d, r, DeserializationOption::NestingLimit((uint8_t)lim), DeserializationOption::Filter(fd.as<JsonVariantConst>()))
+                         : deserializeMsgPack(d, r, DeserializationOption::NestingLimit((uint8_t)lim), DeserializationOption::Filter(fd.as<JsonVariantConst>()));
+        else
+          e = fmt == 'j' ? deserializeJson(d, r, DeserializationOption::Filter(fd.as<JsonVariantConst>()), DeserializationOption::NestingLimit((uint8_t)lim))
+                         : deserializeMsgPack(d, r, DeserializationOption::Filter(fd.as<JsonVariantConst>()), DeserializationOption::NestingLimit((uint8_t)lim));
       }
       long used = r.lowStack == ~(uintptr_t)0 ? 0 : (long)(base - r.lowStack);
       out = string(e.c_str()) + " nesting=" + std::to_string(d.nesting()) + " pos=" + std::to_string(r.pos) + " stack=" + std::to_string(used);
